@@ -623,6 +623,10 @@ def run(model: RepoModel, rep, tier: str):
     rep.rule("C04.R10", "every part of a loop header reaches the GIR: a field of a control statement that the grammar lets repeat (the update expressions "
                         "and initialisers of a C-style for) is read with the plural accessor", 8)
     check_repeated_fields(model, rep, "C04.R10", only_handlers=("for_statement", "while_statement", "if_statement", "do_statement", "switch_statement", "try_statement"))
+    from .. import generic4
+    rep.rule("C04.R11", "a goto keeps the edge to its own label: the fix-up takes the target from a scan over the collected labels, not from a "
+                        "single-valued table keyed by the label name (names repeat in nested function literals)", 1)
+    generic4.check_goto_label_scan(model, rep, "C04.R11")
     # ------------------------------------------------------------------ R9 every clause of a control statement reaches the GIR
     from .. import generic2
     CONTROL_KEYS = ("if_stmt", "while_stmt", "dowhile_stmt", "for_stmt", "forin_stmt", "for_value_stmt", "try_stmt", "catch_clause", "switch_stmt",
